@@ -167,3 +167,16 @@ REG.contract(
     note="the per-query timeout is min(remaining lifetime, timeout) and strictly positive; LifetimeTimeout exactly when the "
          "lifetime is used up or the clock went back by more than a second (reals; time_1 is the clock reading)",
 )
+
+# ----------------------------------------------------------------------------- C05-P1: quoted character-string text
+REG.contract(
+    "dns.rdata._escapify",
+    params={"qstring": T.bytes},
+    raises=[],
+    returns=T.str,
+    loops={0: loop(index="idx", invariant=["text == esc_qstring(qstring, idx)"], types={})},
+    ensures=["result == esc_qstring(qstring, len(qstring))"],
+    props=["C05"],
+    note="bytes input: the text of a character-string is the concatenation of the escape of each octet: \" and \\ quoted, "
+         "0x20..0x7E literal, everything else \\DDD",
+)
